@@ -13,12 +13,17 @@ class C01(CoreProp):
     rule = ("typed random expression trees over data variables, literals and var-declared variables (80% inside the "
             "property's domain by construction, 20% with off-domain mixes), printed as JS source with random redundant "
             "parentheses, wrapped in `= expr` (escaped buffered code), rendered by the real engine; non-trivial = "
-            "expression depth >= 2 and at least one variable; distinct by SHA-1 of the case")
+            "expression depth >= 2 and at least one variable; distinct by SHA-1 of the case. For the scalar fragment the agreement "
+            "of compile + execute with S is a theorem (C01_compile_eval, C01_text); the run checks the model against the real engine "
+            "there and carries the property for the heap constructs")
     trusted = [
         "M = Pug/Compile.v (renderExpression), Tmpl/Runtime.v (runtime.go, tpl_funcs.go, types.go helpers), Tmpl/Exec.v (tpl_exec.go): "
         "hand-written Gallina reading of the Go code, compared with the real engine on every case (output seam) ",
         "S = Spec/Sem.v: ECMA-262 semantics of the core subset on integers |n| < 10^10 and byte strings (ASCII where JavaScript counts UTF-16 units)",
         "the otto parser (JS source -> AST) is exercised, not modelled, here (C15 owns it): the case's AST is the generator's, the engine parses the printed source",
+        "C01_compile_eval(_fuel,_safe) / C01_text / C01_text_cwrap / C01_print_code relate M's compile + execute stages to S for every scalar "
+        "expression by induction (no sampling); they depend on Gen/OpsTable.v (the operator table extracted from transform_js_.go) and "
+        "are re-checked when it changes",
     ]
     assumptions = [
         "numbers are integers with |n| < 10^10 at every intermediate step; division only when exact",
@@ -26,9 +31,18 @@ class C01(CoreProp):
         "listed deviations (KNOWN_FINDINGS.txt) are reported as KNOWN-FINDING, not judged as violations",
     ]
     not_yet_proved = [
-        "C01_compile_eval: forall e env, core e -> dom e -> engine value of (compile e) represents js_eval e (induction over all "
-        "expression trees through the fuelled executor) — the per-operator agreement lemmas, truthiness, operand-returning and/or, "
-        "printing and the operator table are proved; their composition over arbitrary nesting currently rests on the correspondence run",
+        "C01_compile_eval is proved for the SCALAR fragment only (Proofs/C01EvalProofs.v scalar_core: number/string/boolean "
+        "literals, template variables, + - * / % < > <= >= == === != !== && ||, ! and unary -, ?: at any nesting; the fuelled "
+        "executor is shown to have enough fuel for nesting depth <= 56, or <= 79 without ?:). Still resting on the correspondence "
+        "run: array and object literals, member access, index, Array/String method calls, template literals and null — i.e. the "
+        "same induction under a heap relation between the engine's heap (Tmpl/Value.v heap) and S's (Spec/Sem.v jheap)",
+        "the scalar theorems carry two explicit domain hypotheses the statement is false without (each has a vm_compute witness "
+        "in Proofs/C01EvalProofs.v): dead_quiet — the operand of && || ?: that S evaluates for the domain check only raises no flag "
+        "(dead_operand_refuted; implied by the syntactic dead_safe: operands that can be dead contain no +, C01_dead_safe) — and "
+        "env_range_on — numbers held by variables are in range (data_range_refuted); the result relation is repu (an undefined that "
+        "went through ?: is the engine's Nil, cond_undefined_refuted), and variables may be related by repu too (env_repu_on). "
+        "The former third hypothesis rem_dom (`= 5 % n` printed <nil>) is gone: runtimeRem was repaired (b5830d2, witnesses "
+        "corpus/C01/F-C01-g.json, F-C01-g-var.json) and the model follows the repaired code",
     ]
 
     def generate(self, rng, n, tier):
